@@ -316,7 +316,7 @@ struct Global {
   const Scenario *scn = nullptr;
   Config cfg;
   int n = 0;
-  VThread th[kMaxThreads];
+  VThread *th = nullptr;  // allocated per execution; leaked together with its threads when an execution is abandoned
   std::vector<Loc> locs;
   uint64_t freed_sum = 0;  // commutative hash of freed blocks
   std::vector<ChoicePoint> trace;
@@ -331,6 +331,7 @@ struct Global {
   std::atomic<int> done{0};
   bool fatal = false;
   bool poisoned = false;
+  uint64_t abandoned = 0;
   bool replay_verbose = false;
   FILE *out = nullptr;
   bool diverged = false;
@@ -498,7 +499,6 @@ RecordViolation(const char *props, const std::string &sig, const std::string &ms
 FatalStop()
 {
   G.fatal = true;
-  G.poisoned = true;
   if (tl_tid >= 0) {
     WakeController(2);
     ParkForever();
@@ -785,6 +785,8 @@ RunOnce(const std::vector<uint8_t> &prefix)
   G.exec_viol_count = 0;
   G.done.store(0);
   ArenaReset();
+  G.fatal = false;
+  G.th = new VThread[kMaxThreads];
   for (int i = 0; i < G.n; ++i) {
     auto &t = G.th[i];
     t.id = i;
@@ -827,7 +829,11 @@ RunOnce(const std::vector<uint8_t> &prefix)
     while (G.done.load(std::memory_order_seq_cst) == 0) Futex(&G.done, FUTEX_WAIT_PRIVATE, 0);
   }
   if (G.done.load() == 2 || G.fatal) {
-    return false;  // threads are parked for ever; the process must not run further executions
+    // the threads of this execution are parked for ever (deadlock / crash / horizon): abandon them
+    // together with their control blocks; later executions use fresh ones
+    ++G.abandoned;
+    G.th = nullptr;
+    return false;
   }
   for (int i = 0; i < G.n; ++i) pthread_join(G.th[i].pt, nullptr);
   G.last_outcome = G.scn->outcome ? G.scn->outcome() : std::string();
@@ -838,6 +844,8 @@ RunOnce(const std::vector<uint8_t> &prefix)
     ++tl_engine;
     g_controller_scope = false;
   }
+  delete[] G.th;
+  G.th = nullptr;
   return true;
 }
 
@@ -1161,11 +1169,8 @@ Result
 Explore(const Scenario &scn, const Config &cfg)
 {
   Result res;
-  if (G.poisoned) {
-    fprintf(stderr, "vs: Explore called after a fatal stop\n");
-    _exit(2);
-  }
   Prepare(scn, cfg);
+  G.abandoned = 0;
   const double t0 = Now();
   G.replay_verbose = false;
   G.out = nullptr;
@@ -1179,6 +1184,7 @@ Explore(const Scenario &scn, const Config &cfg)
     bounds.push_back(cfg.bound);
   }
   bool out_of_budget = false;
+  bool stop_all = false;
   for (int bound : bounds) {
     std::unordered_map<uint64_t, int16_t> cache;
     std::vector<std::vector<uint8_t>> stack;
@@ -1198,11 +1204,12 @@ Explore(const Scenario &scn, const Config &cfg)
       res.steps += G.steps;
       res.max_trace = std::max<uint64_t>(res.max_trace, G.trace.size());
       if (G.any_blocked) ++res.blocked_execs;
-      if (!ok) {
+      if (!ok && (G.diverged || G.abandoned > static_cast<uint64_t>(cfg.max_abandoned))) {
         complete = false;
-        break;  // fatal: process is poisoned
+        stop_all = true;
+        break;  // too many stuck executions (each leaks its parked threads) or an internal error
       }
-      if (scn.outcome && outcomes.size() < 4096) outcomes.insert(G.last_outcome);
+      if (ok && scn.outcome && outcomes.size() < 4096) outcomes.insert(G.last_outcome);
       if (res.sample_trace.empty() || (G.trace.size() > res.sample_trace.size() && res.executions < 64)) {
         res.sample_trace.clear();
         for (auto &cp : G.trace) res.sample_trace.push_back(cp.chosen);
@@ -1244,7 +1251,7 @@ Explore(const Scenario &scn, const Config &cfg)
       if (pruned) ++res.pruned;
     }
     res.states += cache.size();
-    if (G.fatal) break;
+    if (stop_all) break;
     if (complete) {
       res.bound_completed = cfg.bound < 0 ? -1 : bound;
     } else {
@@ -1252,7 +1259,8 @@ Explore(const Scenario &scn, const Config &cfg)
     }
     if (cfg.stop_on_violation && !G.viols.empty()) break;
   }
-  res.exhaustive = !G.fatal && !out_of_budget &&
+  res.abandoned = G.abandoned;
+  res.exhaustive = !stop_all && !out_of_budget &&
                    (res.bound_completed == (cfg.bound < 0 ? -1 : cfg.bound));
   res.outcomes.assign(outcomes.begin(), outcomes.end());
   res.violations = G.viols;
@@ -1361,6 +1369,7 @@ ResultToJson(const Result &r)
   num("pruned", static_cast<double>(r.pruned));
   num("blocked_execs", static_cast<double>(r.blocked_execs));
   num("max_trace", static_cast<double>(r.max_trace));
+  num("abandoned", static_cast<double>(r.abandoned));
   num("bound_completed", r.bound_completed);
   s += std::string("\"exhaustive\":") + (r.exhaustive ? "true" : "false") + ",";
   num("wall_s", r.wall_s);
